@@ -128,11 +128,18 @@ func c18() *core.Check {
 			us = append(us, gen.RangeUnits("dbody", 4*gen.Pow(4, l), 30000, strconv.Itoa(l))...)
 		}
 		us = append(us, gen.RangeUnits("embedded", rnd, 20000, "")...)
+		// long backslash runs in front of a delimiter (parity around 32/64/128/256/1024)
+		us = append(us, gen.RangeUnits("bsrun", uint64(len(litForms)*len(c18BsRuns)), 64, "")...)
+		// q-quotes whose delimiter byte starts a multi-byte UTF-8 character
+		us = append(us, gen.RangeUnits("qutf8", uint64(len(c18UTF8)*3125), 5000, "")...)
+		// dollar tags: other letter case of the tag inside the body; long tags with cut-off closers
+		us = append(us, gen.RangeUnits("dcase", uint64(len(c18CaseTags)*3125), 5000, "")...)
+		us = append(us, gen.RangeUnits("dlong", uint64(len(c18LongTags)*625), 5000, "")...)
 		return us
 	}
 	return &core.Check{
 		ID: "C18",
-		Rule: "for every literal form (real ' \" `, virtual quote in the four quoted modes, n' N' e' E' u&' U&', @' @\" @` @@' @@`) bodies over {delimiter, backslash, x, other quote} exhaustively up to length 7 (thorough 11) and periodic bodies U.V.U.V for all U,V up to length 3 (5), behind nine SQL prefixes (incl. backslashes before the opener); q-quotes for all 223 delimiter bytes >= 33 x bodies over {b, close(b), ', x} up to 5 (7), q/Q/nq/Nq; dollar quotes with tags of length 0-3 x bodies over {$, tag letter, x, y} up to 6 (9); the same literals embedded in random SQL. " +
+		Rule: "for every literal form (real ' \" `, virtual quote in the four quoted modes, n' N' e' E' u&' U&', @' @\" @` @@' @@`) bodies over {delimiter, backslash, x, other quote} exhaustively up to length 7 (thorough 11) and periodic bodies U.V.U.V for all U,V up to length 3 (5), behind nine SQL prefixes (incl. backslashes before the opener); q-quotes for all 223 delimiter bytes >= 33 x bodies over {b, close(b), ', x} up to 5 (7), q/Q/nq/Nq; dollar quotes with tags of length 0-3 x bodies over {$, tag letter, x, y} up to 6 (9); the same literals embedded in random SQL; backslash runs of 29-36, 61-66, 127-130, 255-258, 1023-1025 and 4097 in front of a delimiter for every form; q-quotes whose delimiter byte is the lead byte of a multi-byte UTF-8 character with bodies over {lead byte, continuation bytes, ', x, whole character}; dollar tags with the tag in another letter case inside the body, and tags of 2-256 letters with cut-off / extended closers; virtual-quote literals additionally on a state that has been through the earlier readings of the cascade. " +
 			"The string token (content start, content end taken from the scan offset after the token, closed?, open/close marks, resume offset) is compared with the first-terminator oracle. Non-trivial = bodies holding a delimiter or backslash; distinct by input+form.",
 		Plan: plan,
 		Gen: func(w *core.Worker, u core.Unit, emit func(core.Case)) {
@@ -211,6 +218,61 @@ func c18() *core.Check {
 					op := "$" + tag + "$"
 					emit(core.Case{In: pre + op + body, Kind: "dollar", A: int64(len(pre) + len(op)), S: op})
 				}
+			case "bsrun":
+				for i := u.Lo; i < u.Hi; i++ {
+					fi := int(i) / len(c18BsRuns)
+					n := c18BsRuns[int(i)%len(c18BsRuns)]
+					f := litForms[fi]
+					d := string([]byte{f.delim})
+					run := strings.Repeat("\\", n)
+					for _, body := range []string{run + d + "y" + d + "z", "x" + run + d + d + "y" + d, "ab" + run + d, run + "x" + d + run + d + "y" + d} {
+						emitLit(fi, body, int(i), emit)
+					}
+				}
+			case "qutf8":
+				var buf []byte
+				for i := u.Lo; i < u.Hi; i++ {
+					ch := c18UTF8[i/3125]
+					lead := ch[:1]
+					cont := ch[1:]
+					al := []string{lead, cont, "'", "x", ch}
+					buf = gen.Enum(al, 5, i%3125, buf)
+					// the body starts with the rest of the character: the delimiter byte is its lead byte
+					body := cont + string(buf)
+					op := []string{"q'", "Q'", "nq'"}[i%3]
+					pre := litPrefixes[int(i)%len(litPrefixes)]
+					emit(core.Case{In: pre + op + lead + body, Kind: "q", A: int64(len(pre) + len(op) + 1), B: int64(lead[0])})
+				}
+			case "dcase":
+				var buf []byte
+				for i := u.Lo; i < u.Hi; i++ {
+					tag := c18CaseTags[i/3125]
+					op := "$" + tag + "$"
+					swap := []byte(tag)
+					for j := range swap {
+						swap[j] ^= 0x20
+					}
+					al := []string{"$", tag, string(swap), "$" + strings.ToUpper(tag) + "$", "$" + strings.ToLower(tag) + "$"}
+					buf = gen.Enum(al, 5, i%3125, buf)
+					pre := litPrefixes[int(i)%len(litPrefixes)]
+					if strings.HasSuffix(pre, "\\") {
+						pre = ""
+					}
+					emit(core.Case{In: pre + op + string(buf), Kind: "dollar", A: int64(len(pre) + len(op)), S: op})
+				}
+			case "dlong":
+				var buf []byte
+				for i := u.Lo; i < u.Hi; i++ {
+					tag := c18LongTags[i/625]
+					op := "$" + tag + "$"
+					cut := tag
+					if len(cut) > 63 {
+						cut = cut[:63]
+					}
+					al := []string{"$" + cut + "$", op, "$" + tag[:len(tag)-1] + "$", "x", "$" + tag + "a$"}
+					buf = gen.Enum(al, 4, i%625, buf)
+					emit(core.Case{In: op + string(buf), Kind: "dollar", A: int64(len(op)), S: op})
+				}
 			case "embedded":
 				r := core.NewRng(w.R.Seed, "c18", fmt.Sprint(u.Lo))
 				for i := u.Lo; i < u.Hi; i++ {
@@ -246,6 +308,35 @@ func c18() *core.Check {
 			return fmt.Sprintf("kind=%s content starts at %d, mode %s\n%s", c.Kind, c.A, modeName(mode), dumpSQLTrace(&tr))
 		},
 	}
+}
+
+var c18BsRuns = []int{29, 30, 31, 32, 33, 34, 35, 36, 61, 62, 63, 64, 65, 66, 127, 128, 129, 130, 255, 256, 257, 258, 1023, 1024, 1025, 4097}
+
+// two-, three- and four-byte characters, and lead bytes with the wrong number of continuation bytes
+var c18UTF8 = []string{"\xc3\xa9", "\xc3\x9f", "\xc2\xa0", "\xdf\xbf", "\xe2\x82\xac", "\xe3\x80\x80", "\xef\xbb\xbf", "\xf0\x9f\x98\x80", "\xf4\x8f\xbf\xbf", "\xc3\xa9\xa9", "\xe2\x82", "\xf0\x9f"}
+
+var c18CaseTags = []string{"Tag", "tAG", "a", "Ab", "T", "body", "END"}
+
+var c18LongTags = func() []string {
+	var out []string
+	for _, n := range []int{2, 31, 32, 33, 62, 63, 64, 65, 100, 255, 256} {
+		out = append(out, strings.Repeat("tagname", n/7+1)[:n])
+	}
+	return out
+}()
+
+// cascadePrior: the readings check() has been through when it reaches a mode
+// (index into sqlModes); nil for modes that are not part of the cascade.
+func cascadePrior(mi int) []int {
+	switch mi {
+	case 2:
+		return []int{sqlModes[0]}
+	case 3:
+		return []int{sqlModes[0], sqlModes[2]}
+	case 5:
+		return []int{sqlModes[0], sqlModes[2]}
+	}
+	return nil
 }
 
 func emitLit(fi int, body string, salt int, emit func(core.Case)) {
@@ -353,6 +444,20 @@ func checkLiteral(w *core.Worker, c core.Case) string {
 	}
 	if k+1 < len(tr.Tokens) && tr.Tokens[k+1].Pos < wantResume {
 		return fmt.Sprintf("%s: next token starts at %d, inside the literal (ends %d)\n%s", c.Kind, tr.Tokens[k+1].Pos, wantResume, dumpSQLTrace(&tr))
+	}
+	if c.Kind == "quoted" && litForms[c.C].opener == "" {
+		// the virtual-quote readings are reached by check() on a state that has
+		// been through earlier readings: the literal must come out the same there
+		if prior := cascadePrior(litForms[c.C].mode); prior != nil {
+			tr2 := li.VerifSQLTokensAfter(s, prior, mode)
+			if len(tr2.Tokens) <= k {
+				return fmt.Sprintf("%s: after the earlier readings on the same state the token stream has %d tokens, on a fresh state %d\n%s", litForms[c.C].name, len(tr2.Tokens), len(tr.Tokens), dumpSQLTrace(&tr2))
+			}
+			if t2 := tr2.Tokens[k]; t2.Pos != t.Pos || t2.Len != t.Len || t2.Val != t.Val || t2.After != t.After || t2.StrOpen != t.StrOpen || t2.StrClose != t.StrClose || t2.Category != t.Category {
+				return fmt.Sprintf("%s: after the earlier readings on the same state the literal token differs from the one on a fresh state (resume %d vs %d, length %d vs %d, closed %v vs %v)\n%s", litForms[c.C].name, t2.After, t.After, t2.Len, t.Len, t2.StrClose != 0, t.StrClose != 0, dumpSQLTrace(&tr2))
+			}
+			w.Count("virtual_literals_also_on_reused_state", 1)
+		}
 	}
 	name := c.Kind
 	if c.Kind == "quoted" {
